@@ -692,7 +692,7 @@ func c12R4(c *Ctx) {
 		}
 		walk(fn)
 	}
-	c.R.Floor("C12.R4", n, 6)
+	c.R.Floor("C12.R4", n, 4)
 }
 
 func indexOfStore(f *ssa.Function, target ssa.Instruction) int {
